@@ -395,11 +395,109 @@ def standin_combination_powers(tier, seed):
                 bound="coefficient 4-tuples over {0, +-1, i, 0.5, 0.3+0.2i, 2} (all 2401 in the thorough tier) x exponents 0..5", cases=cases, distinct=cases, failures=len(fails),
                 exhaustive=(tier != "quick"), _fails=fails[:3])
 standin_combination_powers.prop = "C14"
-STANDINS = [standin_algebra, standin_conjugation, standin_expectation_and_phasor, standin_pauli_sums, standin_combination_powers]
+def standin_simulated_expectations(tier, seed):
+    """Expectation values BY THE SIMULATORS (single point and sweeps, every qubit order, every form of initial state incl. a caller's
+    simulation-state object) against <psi|P|psi> / tr(rho P) of an independently computed final state; exponentials of commuting sums."""
+    import cirq
+    import sympy
+    from contracts import refsim
+
+    rng = random.Random(seed)
+    cases, fails = 0, []
+    qs = cirq.LineQubit.range(3)
+    t = sympy.Symbol("t")
+
+    def bad(kind, clause, **args):
+        fails.append(dict(args={k: repr(v)[:500] for k, v in args.items()}, failed=kind, clause=clause))
+
+    for trial in range(6 if tier == "quick" else 60):
+        ops = []
+        for _ in range(rng.randrange(2, 6)):
+            a, b = rng.sample(qs, 2)
+            ops.append(rng.choice([cirq.X(a) ** t, cirq.H(a), cirq.CZ(a, b) ** 0.5, cirq.Y(a) ** (t + 0.25), cirq.CNOT(a, b), cirq.rz(0.3)(b), cirq.ISWAP(a, b) ** t]))
+        circuit = cirq.Circuit(ops)
+        if not cirq.is_parameterized(circuit):
+            circuit.append(cirq.X(qs[0]) ** t)
+        used = sorted(circuit.all_qubits())
+        observables = []
+        for _ in range(3):
+            terms = [cirq.PauliString({q: rng.choice([cirq.X, cirq.Y, cirq.Z]) for q in used if rng.random() < 0.6}, coefficient=rng.choice([1, -1, 0.5, 2])) for _ in range(rng.randrange(1, 3))]
+            observables.append(sum(terms[1:], terms[0]) if len(terms) > 1 else terms[0])
+        points = [rng.choice([0, 0.25, 0.5, 1, 1.5, -0.3]) for _ in range(rng.randrange(2, 5))]
+        order = rng.sample(used, len(used))
+        n = len(order)
+        init_kind = rng.choice(["default", "int", "vector", "state-object"])
+        for sim in (cirq.Simulator(dtype=np.complex128), cirq.DensityMatrixSimulator(dtype=np.complex128)):
+            if init_kind == "default":
+                initial, psi0 = 0, None
+            elif init_kind == "int":
+                initial = rng.randrange(2**n)
+                psi0 = np.zeros(2**n, dtype=complex)
+                psi0[initial] = 1
+            else:
+                psi0 = np.array([complex(rng.gauss(0, 1), rng.gauss(0, 1)) for _ in range(2**n)])
+                psi0 /= np.linalg.norm(psi0)
+                initial = psi0
+                if init_kind == "state-object":
+                    initial = sim._create_simulation_state(psi0 if isinstance(sim, cirq.Simulator) else np.outer(psi0, psi0.conj()), order)
+            want = []
+            for v in points:
+                U = refsim.ref_unitary(cirq.resolve_parameters(circuit, {"t": v}), order)
+                psi = U @ (psi0 if psi0 is not None else np.eye(2**n)[0])
+                want.append([complex(np.vdot(psi, _mat(cirq.PauliSum.wrap(o), order) @ psi)) for o in observables])
+            cases += 1
+            got = sim.simulate_expectation_values_sweep(circuit, observables, cirq.Points("t", points), qubit_order=order, initial_state=initial)
+            if np.shape(got) != np.shape(want) or not np.allclose(got, want, atol=1e-6):
+                bad("simulate_expectation_values_sweep", "every sweep point's values equal <psi|P|psi> of that point's final state (each point starts from the given initial state)",
+                    simulator=type(sim).__name__, circuit=circuit, observables=observables, points=points, order=order, initial=init_kind, got=np.round(got, 4).tolist(), want=np.round(want, 4).tolist())
+            if init_kind != "state-object":
+                cases += 1
+                got1 = sim.simulate_expectation_values(circuit, observables, cirq.ParamResolver({"t": points[-1]}), qubit_order=order, initial_state=initial)
+                if not np.allclose(got1, want[-1], atol=1e-6):
+                    bad("simulate_expectation_values", "values equal <psi|P|psi> of the final state", simulator=type(sim).__name__, circuit=circuit, observables=observables, point=points[-1], order=order, initial=init_kind)
+        if len(fails) >= 4:
+            break
+
+    # exponentials of commuting sums: matrix() on .qubits vs the product of the rotation factors vs exp(i e sum)
+    a, b, c = qs
+    sums = [cirq.Z(a) * cirq.Z(b) + cirq.Z(b) * cirq.Z(c), 0.2 * cirq.Z(b) + 0.7 * cirq.Z(a), cirq.X(a) * cirq.X(b) + cirq.Z(a) * cirq.Z(b), cirq.X(c) + 0.5 * cirq.Z(a),
+            cirq.Y(b) * cirq.Y(c) - cirq.X(b) * cirq.X(c), 2j * cirq.X(a) + 3j * cirq.Z(b), 1.5 * cirq.X(a) * cirq.Y(b) * cirq.Z(c), cirq.Z(c) * cirq.Z(a) + cirq.Z(b)]
+    for ps, e in itertools.product(sums, (1.0, 0.3, -0.7, np.pi / 2)):
+        cases += 1
+        try:
+            pse = cirq.PauliSumExponential(ps, e)
+        except ValueError:
+            continue
+        reg = list(pse.qubits)
+        H = _mat(cirq.PauliSum.wrap(ps), reg)
+        herm = np.allclose(H, H.conj().T)
+        w, v = np.linalg.eigh(H if herm else -1j * H)
+        want = (v * np.exp(1j * e * w)) @ v.conj().T
+        got = pse.matrix()
+        if got.shape != want.shape or not np.allclose(got, want, atol=1e-7):
+            bad("PauliSumExponential.matrix", "matrix() is exp(i e S) (S Hermitian) resp. exp(e S) (S anti-Hermitian) on the qubits .qubits", sum=ps, exponent=e, qubits=reg)
+        prod = refsim.ref_unitary(cirq.Circuit(list(pse)), reg)
+        if not refsim.equal_up_to_global_phase(prod, want):
+            bad("PauliSumExponential.factors", "the product of the rotation factors is the exponential, up to global phase", sum=ps, exponent=e)
+    # phasors of the identity string: only the +1 eigenspace exists
+    for ep, en in ((0.5, 0), (0, 0.5), (0.25, -0.3), (1, 0)):
+        for listed in ([], [a], [a, b]):
+            cases += 1
+            ph = cirq.PauliStringPhasor(cirq.PauliString(), qubits=listed, exponent_neg=en, exponent_pos=ep)
+            want = np.exp(1j * np.pi * ep) * np.eye(2 ** len(listed))
+            if not np.allclose(cirq.unitary(ph), want, atol=1e-8):
+                bad("PauliStringPhasor.identity", "the phasor of the identity string is exp(i pi e+) times the identity", phasor=ph)
+    return dict(function=F + "/{pauli_string,linear_combinations,pauli_sum_exponential}.py + cirq/sim[simulated expectation values, exponentials of sums]", case="simulated-expectation",
+                bound="seeded 3-qubit parameterized circuits x 3 observables (strings and sums) x 2-4 sweep points x permuted qubit order x {default, integer, vector, simulation-state object} initial "
+                      "states x {Simulator, DensityMatrixSimulator}; 8 commuting sums x 4 exponents; identity-string phasors", cases=cases, distinct=cases, failures=len(fails), exhaustive=False, _fails=fails[:4])
+standin_simulated_expectations.prop = "C14"
+
+
+STANDINS = [standin_algebra, standin_conjugation, standin_expectation_and_phasor, standin_pauli_sums, standin_combination_powers, standin_simulated_expectations]
 
 NOT_COVERED = [
     "PauliString.__mul__/_imul_helper as a whole (loop over the factors), DensePauliString.__mul__/__pow__, _calc_conjugation, PauliSum algebra: bounded only",
-    "PauliSumExponential, Simulator.simulate_expectation_values: not exercised",
+    "PauliSumExponential, simulate_expectation_values(_sweep): bounded only (seeded circuits / a fixed list of sums)",
 ]
 ASSUMPTIONS = ["np.sum(dtype=uint8) is the sum modulo 256", "in-place multiply names are specified through the immutable product they implement (upstream tests pin this)"]
 EXPLANATION = ("C14: the two phase/sign kernels (_imul_atom_helper, _vectorized_pauli_mul_phase) are decided on their full finite domains "
